@@ -93,6 +93,14 @@ def regions(path):
 def check(ctx):
     a = ctx.a
     ty = types(a)
+    # "nothing is repeated except on timer expiry ...; never closer together than the initial timeout": a request that is given the identifier
+    # of another unfinished one takes over its registry entry when it is registered - the first one's retry timer, which only the entry's
+    # removal cancels, runs on beside the new one: two chains repeat one packet
+    from .common import run_premise
+    run_premise(ctx, "C17", "R-IDS", "identifiers", "an identifier names at most one unfinished exchange",
+                "two unfinished requests share an identifier: registering the second overwrites the entry of the first, whose retry timer is "
+                "never cancelled and keeps repeating its packet beside the second one's - repeats without a timer expiry of their own, "
+                "closer together than the timeout, and after the acknowledgement")
     caps, pm, _ = capabilities(a)
     n_timer = n_writes = 0
     for cls in a.protos[1:]:
